@@ -5,6 +5,16 @@ sys.path.insert(0, '/verif')
 from harness import common, engine
 common.prime()
 DESCR = {
+ "C14-eval-of-a-scalar-or-string-value": "eval mode turns the evaluated value into Literal[...] by iterating it: a scalar raises TypeError and a string becomes a Literal of its characters (Literal['a', 'd', 'a', 'm'])",
+ "C14-wrap-applied-again-when-an-input-address-repeats": "the wrap template is written into the INPUT tree's node, so when the same input address is used by a second pair its annotation is wrapped twice (Union[Union[X, str], str])",
+ "C14-D11-kwonly-argument-not-found": "a keyword-only argument cannot be addressed on the input side (find_in_ast only looks at positional arguments): AssertionError",
+ "C14-D11-function-before-target": "an address whose resolution walks past a function definition is not found / resolves to the wrong node (find_in_ast, see C15-D11)",
+ "C14-D25-string-constant-equals-segment": "a string constant equal to the addressed name is found/replaced instead of the addressed node (see C15-D25)",
+ "C14-D12-nesting-deeper-than-two": "locations deeper than two segments are labelled with their last two names only (see C15-D12)",
+ "C14-duplicate-name-in-scope": "see C15-duplicate-name-in-scope",
+ "C14-absent-prefix-falls-through": "see C15-absent-prefix-falls-through: an address whose first segment does not exist resolves to a later segment's binding instead of being reported",
+ "C14-prefix-segment-names-an-assignment": "see C15-prefix-segment-names-an-assignment",
+ "C14-D13-function-node-never-replaced": "see C15-D13",
  "C07-numpydoc-trailing-section-read-as-parameters": "numpydoc: a section after Parameters (Raises / Examples ...) is read as further parameters named 'Raises', '------', 'ValueError'",
  "C07-D3-documented-parameters-come-first": "when the docstring documents only some parameters, or documents them out of signature order, the parsed interface lists the documented ones first (in docstring order) and the rest after them - not in source order (kernel-checked: Py.documented_first_witness, Py.irMerge_keys)",
  "C07-D3-undocumented-kwargs-dropped": "an undocumented **kwargs parameter is not listed at all",
